@@ -78,6 +78,19 @@ def skeletons(v, tier):
         kinds += [("raw", "g", False, [0, 0, 0, 0, 0, 0, 0xf8, 0x3f]), ("raw", "y", False, [0] * 7 + [0x40] + [0] * 7 + [0xc0])]
     kinds += [("raw", "f", False, [3] + list(b"1.5")), ("s", False, 1, False), (tx, False, 1), ("T",), ("F",), (".",), ("S",)]
     out.append(("const-kinds", {"co_consts": ("(", False, kinds)}, False))
+    # container constants holding both string kinds, directly and one level down (bytes vs text, tuple vs frozenset)
+    pair = [("s", False, 1, False), (tx, False, 1)]
+    conts = [("(", False, pair), ("(", False, [("(", False, pair)])]
+    if v >= (2, 5):
+        conts += [(">", False, pair), (">", False, [("(", False, pair)])]
+    for ci, cshape in enumerate(conts):
+        out.append(("const-container%d" % ci, {"co_consts": ("(", False, [cshape])}, False))
+    # every variable-length field empty
+    empt = {"co_code": ("str", "s", False, []), "co_consts": ("(", False, []), "co_names": ("(", False, []),
+            "co_filename": S.text(v, b""), "co_name": S.text(v, b"")}
+    if v >= (1, 5):
+        empt["co_lnotab"] = ("str", "s", False, [])
+    out.append(("empties", empt, False))
     if refs:
         # the usual compiler pattern: flagged code, flagged filename shared with the nested code through 'r'
         # stream order: outer code (ref 0) ... co_consts[ inner code (ref 1): its filename (ref 2), its name (ref 3) ],
